@@ -4,6 +4,7 @@ import ClarabelModel.Chordal.Reverse
 import ClarabelModel.Chordal.AugCompact
 import ClarabelModel.Chordal.AugCompactFull
 import ClarabelModel.Chordal.PsdCompletion
+import ClarabelModel.Chordal.InfoAccessors
 
 open Clarabel Clarabel.Chordal Driver
 
@@ -52,8 +53,9 @@ def parsePattern (kv : KV) (i : Nat) : Option SPattern := do
   let par ← kv.nats (p ++ "par")
   let spost ← kv.nats (p ++ "spost")
   let nblk ← kv.nats (p ++ "nblk")
+  let nblk? := if (kv.nat (p ++ "nonblk")).isSome then none else some nblk
   pure { sntree := { snode := snode, snodePost := spost, snodeParent := par, snodeChildren := #[],
-                     post := #[], separators := sep, nblk := some nblk, nCliques := ncl },
+                     post := #[], separators := sep, nblk := nblk?, nCliques := ncl },
          ordering := ord, origIndex := oi }
 
 def parseInfo (kv : KV) : Option ChordalInfo := do
@@ -102,7 +104,129 @@ def extFromOutput (p : SPattern) (N : Nat) (Bout : Array Float) (j : Nat) (_W : 
   pure (fun ab =>
     Bout.getD (linIdx N (p.ordering.getD (η.getD ab.1 0) 0, p.ordering.getD (ν.getD ab.2 0) 0)) 0)
 
+
+/-- one token for a model error (the implementation side prints `panic:<message-without-spaces>`) -/
+def fmtME1 {β : Type} (f : β → String) : MErr β → String
+  | .ok v => f v
+  | .error e => (fmtErr e).replace " " "_"
+
+/-- value of one field of a multi-field response: a panic is the bare token `panic` -/
+def fmtMEp {β : Type} (f : β → String) : MErr β → String
+  | .ok v => f v
+  | .error (.panic _) => "panic"
+  | .error (.err k) => "err:" ++ k
+
+def fmtOptRange : Option (Nat × Nat) → String
+  | some (s, e) => s!"{s},{e}"
+  | none => "none"
+
+def fmtPattern (i : Nat) (p : SPattern) : String :=
+  let pre := s!"p{i}_"
+  let t := p.sntree
+  let sets := fun (k : String) (ss : Array VSet) =>
+    s!"{pre}{k}_len={fmtNats (ss.map (·.size))} {pre}{k}={fmtNats (ss.toList.flatMap (·.toList)).toArray}"
+  s!"{pre}oi={p.origIndex} {pre}ord={fmtNats p.ordering} {pre}ncl={t.nCliques} {sets "snode" t.snode} {sets "sep" t.separators} {pre}par={fmtNats t.snodeParent} {pre}spost={fmtNats t.snodePost} {pre}nblk={fmtNats (t.nblk.getD #[])}"
+
+def fmtPatterns (ps : Array SPattern) : String :=
+  " ".intercalate (s!"np={ps.size}" :: (List.range ps.size).map (fun i => fmtPattern i (ps.getD i default)))
+
+/-- the table of `find_graph` results that the harness computed with the implementation (mask ↦
+symbolic factor and ordering); a mask that is not in the table is an error of its own kind -/
+def parseGraphTable (kv : KV) : Option (List (Array Bool × LPat × Array Nat)) := do
+  let ng ← kv.nat "ng"
+  (List.range ng).mapM (fun i => do
+    let pre := s!"g{i}_"
+    let mask ← kv.bools (pre ++ "mask")
+    let n ← kv.nat (pre ++ "n")
+    let colptr ← kv.nats (pre ++ "colptr")
+    let rowval ← kv.nats (pre ++ "rowval")
+    let ord ← kv.nats (pre ++ "ord")
+    pure (mask, ({ n := n, colptr := colptr, rowval := rowval } : LPat), ord))
+
+def findGraphFrom (tab : List (Array Bool × LPat × Array Nat)) (mask : Array Bool) : MErr (LPat × Array Nat) :=
+  match tab.find? (fun e => e.1 == mask) with
+  | some e => pure e.2
+  | none => throw (.err "find_graph:mask-not-in-table")
+
+def handle2 (ch : String) (kv : KV) : Option String :=
+  match ch with
+  | "info.counts" => some <|
+    match parseInfo kv with
+    | some ci =>
+      let A : Csc Float := { m := ci.initDims.2, n := ci.initDims.1, colptr := Array.replicate (ci.initDims.1 + 1) 0,
+                             rowval := #[], nzval := #[] }
+      let n1 := fun (k : String) (r : MErr Nat) => s!"{k}={fmtMEp toString r}"
+      " ".intercalate
+        [ s!"dec={if ci.isDecomposed then 1 else 0}", s!"ic={ci.initConeCount}", s!"ipc={ci.initPsdConeCount}",
+          s!"dcc={ci.decomposableConeCount}", n1 "fpa" ci.finalPsdConesAdded, n1 "ppa" ci.premergePsdConesAdded,
+          n1 "fcc" ci.finalConeCount, n1 "fpc" ci.finalPsdConeCount, n1 "ppc" ci.premergePsdConeCount,
+          n1 "lnb" ci.largestNblk, n1 "hcols" ci.findHColDimension,
+          "adim=" ++ fmtMEp (fun (r : Nat × Nat × Nat) => s!"{r.1},{r.2.1},{r.2.2}") (ci.findADimension A),
+          "hdr=" ++ fmtMEp (fun (c : Print.ChordalCounts) => s!"{c.initPsd},{c.decomposable},{c.premerge},{c.final}")
+            ci.headerCounts ]
+    | none => "bad-request"
+  | "mask" => some <|
+    match kv.csc "A", kv.floats "b" with
+    | some A, some b => fmtME1 (fun (m : Array Bool) => s!"mask={fmtBools m}") (findAggregateSparsityMask A b)
+    | _, _ => "bad-request"
+  | "info.new" => some <|
+    match kv.csc "A", kv.floats "b", parseCones kv "", kv.str "merge", parseGraphTable kv with
+    | some A, some b, some cones, some merge, some tab =>
+      fmtME1 (fun (ci : ChordalInfo) =>
+        s!"dec={if ci.isDecomposed then 1 else 0} n={ci.initDims.1} m={ci.initDims.2} {fmtCones "" ci.initCones} {fmtPatterns ci.spatterns}")
+        (ChordalInfo.new (findGraphFrom tab) A b cones merge)
+    | _, _, _, _, _ => "bad-request"
+  | "helper.altseq" => some <|
+    match kv.nat "total", kv.nat "nstart" with
+    | some t, some ns => s!"v={fmtFloats (alternatingSequence (α := Float) t ns)}"
+    | _, _ => "bad-request"
+  | "helper.extracols" => some <|
+    match kv.nat "total", kv.nat "nstart", kv.nat "startval" with
+    | some t, some ns, some sv => fmtME1 (fun (v : Array Nat) => s!"v={fmtNats v}") (extraColumns t ns sv)
+    | _, _, _ => "bad-request"
+  | "helper.rows" => some <|
+    match kv.csc "A", kv.floats "b", kv.nat "col", kv.nat "rs", kv.nat "re" with
+    | some A, some b, some col, some rs, some re =>
+      let bInd := ((List.range b.size).filter (fun i => !(b.getD i 0 == 0))).toArray
+      s!"mat={fmtMEp fmtOptRange (getRowsMat A col rs re)} vec={fmtOptRange (getRowsVec bInd rs re)}"
+    | _, _, _, _, _ => "bad-request"
+  | "helper.clique" => some <|
+    match parseInfo kv, kv.nat "i" with
+    | some ci, some i =>
+      match ci.spatterns[0]? with
+      | none => "panic:spatterns[0]"
+      | some p => fmtME1 (fun (c : VSet) => s!"clique={fmtNats c}") (getCliqueByIndex p.sntree i)
+    | _, _ => "bad-request"
+  | "helper.dcone" => some <|
+    match kv.nats "HI", parseCones kv "", parseCones kv "x", kv.nat "row" with
+    | some HI, some cones, some xc, some row =>
+      match xc[0]? with
+      | none => "bad-request"
+      | some cone =>
+        let r := ChordalInfo.decomposeWithCone HI cones cone row
+        s!"HI={fmtNats r.1} {fmtCones "" r.2}"
+    | _, _, _, _ => "bad-request"
+  | "helper.addcone" => some <|
+    match kv.floats "ns", kv.floats "os", kv.floats "nz", kv.floats "oz", kv.nat "rs", kv.nat "re",
+      parseCones kv "x", kv.nat "rp" with
+    | some ns, some os, some nz, some oz, some rs, some re, some xc, some rp =>
+      match xc[0]? with
+      | none => "bad-request"
+      | some cone =>
+        fmtME1 (fun (r : Array Float × Array Float × Nat) => s!"s={fmtFloats r.1} z={fmtFloats r.2.1} rp={r.2.2}")
+          (addBlocksWithCone ns os nz oz rs re cone rp)
+    | _, _, _, _, _, _, _, _ => "bad-request"
+  | "helper.noverlaps" => some <|
+    match kv.csc "A" with
+    | some A => fmtME1 (fun (r : Array Nat × Array Float) => s!"ri={fmtNats r.1} nov={fmtFloats r.2}")
+        (numberOfOverlapsInRows A)
+    | none => "bad-request"
+  | _ => none
+
 def handle (ch : String) (kv : KV) : String :=
+  match handle2 ch kv with
+  | some r => r
+  | none =>
   match ch with
   | "psd_complete.data" =>
     match parseInfo kv, kv.nat "d", kv.floats "W", kv.floats "Wout" with
@@ -161,7 +285,7 @@ def handle (ch : String) (kv : KV) : String :=
     match parseInfo kv, parseConeMaps kv, parseCones kv "o", kv.floats "s", kv.floats "z" with
     | some ci, some cm, some oc, some s, some z =>
       fmtME (fun (r : Array Float × Array Float) => s!"s={fmtFloats r.1} z={fmtFloats r.2} nx={ci.initDims.1}")
-        (decompReverseCompact ci cm oc s z)
+        (decompReverseCompactFull ci cm oc s z)
     | _, _, _, _, _ => "bad-request"
   | _ => "unknown-channel"
 
